@@ -58,6 +58,8 @@ class Report:
         self.extra = {}
         self.programs = 0
         self.harness_errors = []
+        self.crash_reproduces = False  # a compiled accessor dying on a signal counts as reproduced
+        self.max_replays = 8
 
     # ---- collecting -----------------------------------------------------
     def add_engine_result(self, res, expect_reach=("end",)):
@@ -121,13 +123,20 @@ class Report:
         n_viol = 0
         n_known = 0
         seen = set()
+        skipped = 0
         for sig, desc, text in self.candidates:
             if sig in seen:
+                continue
+            if len(seen) >= self.max_replays:
+                skipped += 1
                 continue
             seen.add(sig)
             path = self._write_replay(sig, text)
             rc, out = self._run_replay(path)
             self.validated += 1
+            if rc < 0 and rc != -9 and self.crash_reproduces:
+                rc = 1
+                desc += " [replay: the compiled accessor crashed with a signal]"
             if rc != 1:
                 self.harness_errors.append(
                     f"counterexample did not reproduce (replay exit {rc}): {sig} :: {desc} :: {out[-300:]}"
@@ -142,6 +151,8 @@ class Report:
                 lines.append(f"VIOLATION property={self.pid} replay={path}")
                 lines.append(f"  signature: {sig}")
                 lines.append(f"  what: {desc}")
+        if skipped:
+            lines.append(f"  ... {skipped} further counterexample signature(s) not replayed (cap {self.max_replays}); see evidence counterexamples")
         for msg in self.reach_missing:
             self.harness_errors.append(f"vacuous harness (reachability witness missing): {msg}")
         wall = time.time() - self.t0
